@@ -24,7 +24,7 @@
    copies of computeCacheHash (ctlog.go / cmd/recompute-cache) are one function in the model
    (ckey / leaf_ckey); that the tool's copy computes it is what the correspondence run checks by
    running the real binary (cache rows compared row by row, monitor C07.cacherow). *)
-From SL Require Import Ctlog.Model Ctlog.Spec Ctlog.Inv2 Ctlog.Theorems2 Ctlog.Example Ctlog.Legacy Ctlog.LegacyProofs.
+From SL Require Import Merkle.TilesProofs Ctlog.Model Ctlog.Spec Ctlog.Inv2 Ctlog.Theorems2 Ctlog.Theorems3 Ctlog.RecomputeOk Ctlog.Example Ctlog.Legacy Ctlog.LegacyProofs.
 
 Theorem C07_resubmission_joins_pending : forall sha c p inseq cache e low victim wid wd,
   in_pool sha p (ckey sha e) = Some wd \/ (in_pool sha p (ckey sha e) = None /\ in_pool sha inseq (ckey sha e) = Some wd) ->
@@ -66,14 +66,26 @@ Theorem C07_recompute_restores_dedup : forall (sha : bytes -> bytes) evs i key x
 Proof. exact recompute_restores_dedup. Qed.
 Print Assumptions C07_recompute_restores_dedup.
 
+(* ... and on an untampered history (fewer than 2^63 events) a complete run with the log's own key
+   cannot fail: the published tree is complete and exact in storage (C04), every committed leaf
+   carries its own position, and the published checkpoint was committed *)
+Theorem C07_recompute_succeeds_untampered : forall (sha : bytes -> bytes) evs i x p,
+  no_tamper evs -> (N.of_nat (length evs) < n63)%N ->
+  let w := run sha evs init in
+  get_inst (w_insts w) i = Some x -> published w = Some p ->
+  In (ObsNote "recompute-ok") (snd (step sha w (EvRecompute i (cp_key p) None))).
+Proof. exact recompute_succeeds. Qed.
+Print Assumptions C07_recompute_succeeds_untampered.
+
 (* non-vacuity: after a cache loss the tool ends with "ok" and the lost row is back *)
 Example C07_recompute_example :
   (match get_inst (w_insts world_rc) 0 with Some x => i_cache x | None => [] end) = [] /\
   In (ObsNote "recompute-ok") (snd (step toy_sha world_rc (EvRecompute 0 7 None))) /\
   (match get_inst (w_insts (fst (step toy_sha world_rc (EvRecompute 0 7 None)))) 0 with
    | Some x => cache_get (i_cache x) (ckey toy_sha (ent x31)) | None => None end) = Some (0%N, 20%Z) /\
-  snd (step toy_sha world_rc (EvRecompute 0 8 None)) = [ObsNote "recompute-signature"; ObsCache 0 []].
-Proof. vm_compute. repeat split; auto. Qed.
+  snd (step toy_sha world_rc (EvRecompute 0 8 None)) = [ObsNote "recompute-signature"; ObsCache 0 []] /\
+  no_tamper history_rc.
+Proof. split; [|split; [|split; [|split]]]; try (vm_compute; auto; fail). apply no_tamperb_ok. vm_compute. reflexivity. Qed.
 
 (* ---------- the legacy 128-bit table (cache.go: cacheGet) ---------- *)
 Theorem C07_legacy_absent_is_plain : forall c k,
